@@ -292,6 +292,56 @@ def r7(ctx):
              what='get_index_path prefers <stem>.bai over <bam>.bai')
 
 
+PIPELINE_STEPS = [(BAMFUNC, 'sorted_bam_file'), (BAMFUNC, 'sort_and_index'), (BAMFUNC, 'write_program_tag'), (BAMFUNC, 'add_readgroups_to_header'),
+                  (BAMFUNC, 'merge_bams'), (BTM, 'tag_multiome_single_thread'), (BTM, 'tag_multiome_multi_processing'), (BTM, 'run_multiome_tagging'),
+                  (TAGGING, 'run_tagging_tasks'), (TAGGING, 'run_tagging_task')]
+
+
+def _jumps_in_finally(fdef):
+    """(finally-statement, jump) pairs: a return anywhere in a finally suite, or a break/continue that leaves it, discards the exception in flight"""
+    out = []
+    for t in [x for x in walk_no_nested(fdef) if isinstance(x, ast.Try) and x.finalbody]:
+        def visit(n, in_loop):
+            if isinstance(n, (ast.FunctionDef, ast.AsyncFunctionDef, ast.Lambda, ast.ClassDef)):
+                return
+            if isinstance(n, ast.Return) or (isinstance(n, (ast.Break, ast.Continue)) and not in_loop):
+                out.append((t, n))
+            for c in ast.iter_child_nodes(n):
+                visit(c, in_loop or isinstance(n, (ast.For, ast.While, ast.AsyncFor)))
+        for st in t.finalbody:
+            visit(st, False)
+    return out
+
+
+@rule('C20', 'C20-R8', 'no pipeline step discards a failure in flight: no return/break/continue leaves a finally suite in the writer, sort, merge and tagging '
+                       'functions, and every task submitted to the worker pool has its result (and with it the worker\'s exception) collected')
+def r8(ctx):
+    n = 0
+    for rel, q in PIPELINE_STEPS:
+        f = ctx.fn(rel, q)
+        n += 1
+        js = _jumps_in_finally(f)
+        ctx.emit('C20-R8', not js, rel, js[0][1] if js else f, f'{q}: ' + ('no jump leaves a finally suite' if not js else
+                 f'`{src(js[0][1])[:40]}` at line {js[0][1].lineno} leaves the finally suite: an exception raised in the try body is discarded and the caller goes on to the success status'),
+                 key=f'{q}:finally-keeps-exception', witness={'fault': f'exception inside the try body of {q}', 'outcome': 'discarded by the jump in finally'} if js else None,
+                 what=f'{q}: a jump in a finally suite swallows the failure')
+    ctx.need('C20-R8', n, len(PIPELINE_STEPS), 'pipeline step functions')
+    # pool submission: imap / imap_unordered / map re-raise the worker's exception when the result is consumed; apply_async / map_async only in .get()
+    f = ctx.fn(BTM, 'tag_multiome_multi_processing')
+    subs = [c for c in walk_no_nested(f) if isinstance(c, ast.Call) and isinstance(c.func, ast.Attribute) and c.func.attr in ('imap', 'imap_unordered', 'map', 'starmap', 'apply_async', 'map_async', 'starmap_async', 'apply', 'submit')
+            and any(isinstance(a, ast.Name) and a.id == 'run_tagging_tasks' for a in c.args)]
+    ctx.need('C20-R8', len(subs), 1, 'submissions of run_tagging_tasks to the pool')
+    gets = [c for c in walk_no_nested(f) if isinstance(c, ast.Call) and isinstance(c.func, ast.Attribute) and c.func.attr in ('get', 'result') and not c.args]     # dict.get takes a key
+    for k, c in enumerate(subs):
+        lazy = c.func.attr in ('apply_async', 'map_async', 'starmap_async', 'submit')
+        ok = (not lazy) or bool(gets)
+        ctx.emit('C20-R8', ok, BTM, c, f'tasks are submitted with {c.func.attr}' + (': the result iterator re-raises a worker failure' if not lazy else
+                 (': the result is collected with .get()' if ok else ': no .get()/.result() on the asynchronous result - an exception in a worker is never seen by the parent, '
+                  'which merges the remaining job files and writes the success status')), key=f'pool-failure-collected:{k}',
+                 witness={'fault': 'exception in run_tagging_tasks inside a worker', 'outcome': 'job missing from the merge, status says finished'} if not ok else None,
+                 what='worker failures are not collected from the pool')
+
+
 META = {
     'text': ('Decides, for all paths of the tagging entry points (including exception edges): every success status '
              'message is written outside and after the sorted_bam_file writer context or after merge_bams, is '
